@@ -113,7 +113,7 @@ OpenCases(s) ==
            : pi \in 1..Len(paths)})
 Init == l = 1 /\ out = 0
 Next == /\ l <= Len(Seeds)
-        /\ LET cs == CasesOf(Seeds[l]) \o FieldCases(Seeds[l]) \o OpenCases(Seeds[l]) IN
+        /\ \E cs \in {CasesOf(Seeds[l]) \o FieldCases(Seeds[l]) \o OpenCases(Seeds[l])} :
              /\ ndJsonSerialize(OutPath \o "." \o ToString(l), cs)
              /\ out' = out + Len(cs)
         /\ l' = l + 1
